@@ -7,6 +7,7 @@ import (
 
 	"github.com/ThreeDotsLabs/watermill"
 	"github.com/ThreeDotsLabs/watermill/message"
+	"github.com/ThreeDotsLabs/watermill/verifhook"
 	"github.com/hashicorp/go-multierror"
 	"github.com/pkg/errors"
 )
@@ -191,6 +192,7 @@ func (p PubSubBackend[Result]) ListenForNotifications(
 					return
 				}
 
+				verifhook.At("requestreply.listen.notification", string(params.OperationID), notifyMsg.UUID)
 				resp, ok, unmarshalErr := p.handleNotifyMsg(notifyMsg, string(params.OperationID), p.marshaler)
 				if unmarshalErr != nil {
 					replyChan <- Reply[Result]{
